@@ -369,6 +369,7 @@ func init() {
 		monUTF8(s)
 		monC08ExportAtSequenceEnd(s)
 		monC08AppExport(s)
+		monC18GenesisKeyStrings(s)
 		monAolGenesisConsistency(s, "c01")
 		monAolGenesisConsistency(s, "c13")
 		seen, sigs := map[string]bool{}, map[string]bool{}
